@@ -384,6 +384,18 @@ func (ex *Exec) rangeStart(fr *Frame, in *ssa.Range) Value {
 					rest = append(rest[:i], rest[i+1:]...)
 				}
 				it.keys = perm
+			} else if ex.mapOrder && len(it.keys) > 4 && len(it.keys) <= 16 {
+				// larger maps: 2n of the n! orders - every rotation of the sorted and of the reversed
+				// key list, so that every pair of keys is seen in both relative orders
+				n := len(it.keys)
+				base := append([]string{}, it.keys...)
+				if ex.choose("", 2) == 1 {
+					for i, j := 0, n-1; i < j; i, j = i+1, j-1 {
+						base[i], base[j] = base[j], base[i]
+					}
+				}
+				r := ex.choose("", n)
+				it.keys = append(append([]string{}, base[r:]...), base[:r]...)
 			}
 		}
 		return it
